@@ -115,6 +115,45 @@ namespace c05
     return a[k % 5] * ((k & 1) ? -1.0 : 1.0) * double(1 + k / 5);
   }
 
+  /// number of values of the extreme alphabet (both signs of every magnitude)
+  const uint64_t NX = 36;
+  /// extreme alphabet: largest/smallest normal magnitudes, the boundary between 2- and 3-digit decimal exponents
+  /// (incl. values that round up across it when printed with 7 digits), denormals, +-1 and +-0; every value is
+  /// exactly representable in the requested type (the float list is returned widened to double)
+  template<typename DT_>
+  inline double xv(uint64_t k)
+  {
+    k %= NX;
+    const bool neg = (k & 1) != 0;
+    double m;
+    if(sizeof(DT_) == sizeof(double))
+    {
+      static const double a[18] = {1.7976931348623157e308 / 2.0, 1e300, 1e100, 9.9999995e99, 9.999999e99, 7.5e99, 1e99, 1e-99, 1.5e-99,
+        9.9999995e-100, 7.5e-100, 1e-100, 1e-300, 2.2250738585072014e-308, 1e-310, 4.9406564584124654e-324, 1.0, 0.0};
+      m = a[k / 2];
+    }
+    else
+    {
+      static const float a[11] = {3.40282347e38f / 2.0f, 1e38f, 1e30f, 1.5e10f, 1e-30f, 1e-37f, 1.17549435e-38f, 1e-40f, 1.4e-45f, 1.0f, 0.0f};
+      m = double(a[(k / 2) % 11]);
+    }
+    return neg ? -m : m;
+  }
+  /// value at flat position k for alphabet code alph: 0 exact, 1 rounding, >= 2 extreme with offset alph-2
+  template<typename DT_>
+  inline double aval(int alph, uint64_t k, uint64_t salt)
+  {
+    if(alph == 0) return pv(k, salt);
+    if(alph == 1) return rv(k);
+    return xv<DT_>(k + uint64_t(alph - 2));
+  }
+  inline std::string alph_name(int alph)
+  {
+    if(alph == 0) return "";
+    if(alph == 1) return " (rounding values)";
+    return " (extreme values, offset " + std::to_string(alph - 2) + ")";
+  }
+
   template<typename T_, typename IT_>
   DenseVector<T_, IT_> mkdv(const std::vector<double>& v)
   {
@@ -140,13 +179,13 @@ namespace c05
     typedef DenseVector<DT_, IT_> Type;
     static const char* name() { return "DenseVector"; }
     static Index count(bool thorough) { return thorough ? 19 : 11; }
-    static Type make(Index v, bool rnd, std::string& d)
+    static Type make(Index v, int rnd, std::string& d)
     {
       d = "length " + std::to_string(v) + (v == 0 ? " (default ctor)" : "");
       if(v == 0) return Type();
       if(v == 1) { d = "length 0 (size ctor)"; return Type(Index(0)); }
       Type x(v - 1);
-      for(Index i = 0; i < v - 1; ++i) x(i, DT_(rnd ? rv(i) : pv(i)));
+      for(Index i = 0; i < v - 1; ++i) x(i, DT_(aval<DT_>(rnd, i, 0)));
       return x;
     }
   };
@@ -157,14 +196,14 @@ namespace c05
     typedef DenseVectorBlocked<DT_, IT_, BS_> Type;
     static const char* name() { return BS_ == 2 ? "DenseVectorBlocked<2>" : "DenseVectorBlocked<3>"; }
     static Index count(bool thorough) { return thorough ? 9 : 6; }
-    static Type make(Index v, bool rnd, std::string& d)
+    static Type make(Index v, int rnd, std::string& d)
     {
       d = "blocks " + std::to_string(v);
       if(v == 0) { d = "blocks 0 (default ctor)"; return Type(); }
       if(v == 1) { d = "blocks 0 (size ctor)"; return Type(Index(0)); }
       Type x(v - 1);
       DT_* p = x.template elements<Perspective::pod>();
-      for(Index i = 0; i < (v - 1) * Index(BS_); ++i) p[i] = DT_(rnd ? rv(i) : pv(i, 1));
+      for(Index i = 0; i < (v - 1) * Index(BS_); ++i) p[i] = DT_(aval<DT_>(rnd, i, 1));
       return x;
     }
   };
@@ -177,7 +216,7 @@ namespace c05
     // v: 0 default, 1 size 0, then for n=1..nmax every subset of {0..n-1} (built through the array ctor; the empty
     // subset through the size ctor), then insertion-built vectors (allocated > used)
     static Index count(bool thorough) { Index nmax = thorough ? 5 : 4; Index c = 2; for(Index n = 1; n <= nmax; ++n) c += (Index(1) << n); return c + 4; }
-    static Type make(Index v, bool rnd, std::string& d)
+    static Type make(Index v, int rnd, std::string& d)
     {
       if(v == 0) { d = "default ctor"; return Type(); }
       if(v == 1) { d = "size 0"; return Type(Index(0)); }
@@ -189,7 +228,7 @@ namespace c05
           std::vector<uint64_t> idx; std::vector<double> val;
           // indices are handed over in descending order (unsorted) for odd masks
           for(Index k = 0; k < n; ++k) if(v & (Index(1) << k)) idx.push_back(k);
-          for(Index k = 0; k < idx.size(); ++k) val.push_back(rnd ? rv(idx[k]) : pv(idx[k], 2));
+          for(Index k = 0; k < idx.size(); ++k) val.push_back(aval<DT_>(rnd, idx[k], 2));
           d = "size " + std::to_string(n) + " mask " + std::to_string(v);
           if(idx.empty()) return Type(n);
           const bool unsorted = (v & 1) && idx.size() > 1;
@@ -203,7 +242,7 @@ namespace c05
       {
         const Index n = 6 + v;
         Type x(n);
-        for(Index k = 0; k <= v; ++k) x(Index((k * 5 + 1) % n), DT_(rnd ? rv(k) : pv(k, 3)));
+        for(Index k = 0; k <= v; ++k) x(Index((k * 5 + 1) % n), DT_(aval<DT_>(rnd, k, 3)));
         (void)x.used_elements();
         for(Index k = x.used_elements(); k < x.allocated_elements(); ++k) { x.elements()[k] = DT_(0.5); x.indices()[k] = IT_(0); }
         d = "size " + std::to_string(n) + " built by " + std::to_string(v + 1) + " insertions";
@@ -218,7 +257,7 @@ namespace c05
     typedef SparseVectorBlocked<DT_, IT_, BS_> Type;
     static const char* name() { return "SparseVectorBlocked<2>"; }
     static Index count(bool) { Index c = 2; for(Index n = 1; n <= 3; ++n) c += (Index(1) << n); return c; }
-    static Type make(Index v, bool rnd, std::string& d)
+    static Type make(Index v, int rnd, std::string& d)
     {
       if(v == 0) { d = "default ctor"; return Type(); }
       if(v == 1) { d = "size 0"; return Type(Index(0)); }
@@ -233,7 +272,7 @@ namespace c05
           if(idx.empty()) return Type(n);
           DenseVectorBlocked<DT_, IT_, BS_> dv(Index(idx.size()));
           DT_* p = dv.template elements<Perspective::pod>();
-          for(Index k = 0; k < idx.size() * Index(BS_); ++k) p[k] = DT_(rnd ? rv(k) : pv(k, 4));
+          for(Index k = 0; k < idx.size() * Index(BS_); ++k) p[k] = DT_(aval<DT_>(rnd, k, 4));
           auto iv = mkiv<IT_, IT_>(idx);
           return Type(n, dv, iv, true);
         }
@@ -249,7 +288,7 @@ namespace c05
     typedef DenseMatrix<DT_, IT_> Type;
     static const char* name() { return "DenseMatrix"; }
     static Index count(bool thorough) { return thorough ? 17 : 10; }
-    static Type make(Index v, bool rnd, std::string& d)
+    static Type make(Index v, int rnd, std::string& d)
     {
       if(v == 0) { d = "default ctor"; return Type(); }
       v -= 1;
@@ -257,7 +296,7 @@ namespace c05
       const Index m = v < 9 ? 1 + v / 3 : big[(v - 9) % 7][0], n = v < 9 ? 1 + v % 3 : big[(v - 9) % 7][1];
       d = std::to_string(m) + "x" + std::to_string(n);
       Type x(m, n);
-      for(Index i = 0; i < m; ++i) for(Index j = 0; j < n; ++j) x(i, j, DT_(rnd ? rv(i * n + j) : pv(i * n + j, 5)));
+      for(Index i = 0; i < m; ++i) for(Index j = 0; j < n; ++j) x(i, j, DT_(aval<DT_>(rnd, i * n + j, 5)));
       return x;
     }
   };
@@ -281,18 +320,18 @@ namespace c05
       if(thorough) c += 4095 + 65535;  // 4x3, 4x4
       return c;
     }
-    static Type from_mask(Index m, Index n, uint64_t mask, bool rnd)
+    static Type from_mask(Index m, Index n, uint64_t mask, int rnd)
     {
       std::vector<uint64_t> rp(m + 1, 0), ci; std::vector<double> va;
       for(Index i = 0; i < m; ++i)
       {
-        for(Index j = 0; j < n; ++j) if(mask & (uint64_t(1) << (i * n + j))) { ci.push_back(j); va.push_back(rnd ? rv(i * n + j) : pv(i * n + j, 6)); }
+        for(Index j = 0; j < n; ++j) if(mask & (uint64_t(1) << (i * n + j))) { ci.push_back(j); va.push_back(aval<DT_>(rnd, i * n + j, 6)); }
         rp[i + 1] = ci.size();
       }
       auto vci = mkiv<IT_, IT_>(ci); auto vva = mkdv<DT_, IT_>(va); auto vrp = mkiv<IT_, IT_>(rp);
       return Type(m, n, vci, vva, vrp);
     }
-    static Type make(Index v, bool rnd, std::string& d)
+    static Type make(Index v, int rnd, std::string& d)
     {
       if(v == 0) { d = "default ctor"; return Type(); }
       v -= 1;
@@ -334,7 +373,7 @@ namespace c05
       for(Index m = 1; m <= mx; ++m) for(Index n = 1; n <= mx; ++n) c += (Index(1) << (m * n)) - 1;
       return c;
     }
-    static Type make(Index v, bool rnd, std::string& d)
+    static Type make(Index v, int rnd, std::string& d)
     {
       if(v == 0) { d = "default ctor"; return Type(); }
       v -= 1;
@@ -352,7 +391,7 @@ namespace c05
           std::vector<uint64_t> rp(m + 1, 0), ci;
           for(Index i = 0; i < m; ++i) { for(Index j = 0; j < n; ++j) if(mask & (uint64_t(1) << (i * n + j))) ci.push_back(j); rp[i + 1] = ci.size(); }
           DenseVector<DT_, IT_> vva(Index(ci.size() * BH_ * BW_));
-          for(Index k = 0; k < vva.size(); ++k) vva(k, DT_(rnd ? rv(k) : pv(k, 7)));
+          for(Index k = 0; k < vva.size(); ++k) vva(k, DT_(aval<DT_>(rnd, k, 7)));
           auto vci = mkiv<IT_, IT_>(ci); auto vrp = mkiv<IT_, IT_>(rp);
           return Type(m, n, vci, vva, vrp);
         }
@@ -375,7 +414,7 @@ namespace c05
       if(thorough) c += nsub(4, 4);
       return c;
     }
-    static Type make(Index v, bool rnd, std::string& d)
+    static Type make(Index v, int rnd, std::string& d)
     {
       if(v == 0) { d = "default ctor"; return Type(); }
       v -= 1;
@@ -391,7 +430,7 @@ namespace c05
       for(Index k = 0; k < m + n - 1; ++k) if(mask & (uint64_t(1) << k)) off.push_back(k);
       d = std::to_string(m) + "x" + std::to_string(n) + " offsets mask " + std::to_string(mask);
       std::vector<double> va(m * off.size());
-      for(Index k = 0; k < va.size(); ++k) va[k] = rnd ? rv(k) : pv(k, 8);
+      for(Index k = 0; k < va.size(); ++k) va[k] = aval<DT_>(rnd, k, 8);
       auto vva = mkdv<DT_, IT_>(va); auto vof = mkiv<IT_, IT_>(off);
       return Type(m, n, vva, vof);
     }
@@ -416,7 +455,7 @@ namespace c05
       for(Index s = 0; s < (thorough ? 9u : 6u); ++s) { Index m, n; shape_of(s, m, n); c += nvar(m, n); }
       return c;
     }
-    static Type make(Index v, bool rnd, std::string& d)
+    static Type make(Index v, int rnd, std::string& d)
     {
       if(v == 0) { d = "default ctor"; return Type(); }
       v -= 1;
@@ -437,7 +476,7 @@ namespace c05
           for(Index i = 0; i < m; ++i) if(rs & (Index(1) << i))
           {
             rn.push_back(i);
-            for(Index j = 0; j < n; ++j) if(mask & (uint64_t(1) << (u * n + j))) { ci.push_back(j); va.push_back(rnd ? rv(i * n + j) : pv(i * n + j, 9)); }
+            for(Index j = 0; j < n; ++j) if(mask & (uint64_t(1) << (u * n + j))) { ci.push_back(j); va.push_back(aval<DT_>(rnd, i * n + j, 9)); }
             rp.push_back(ci.size());
             ++u;
           }
